@@ -299,6 +299,8 @@ class Foot:
             c = strip(s.get('c')) if s.get('c') else None
             inc = strip(s.get('inc')) if s.get('inc') else None
             ok = ivid is not None and c and c.get('k') == 'bin' and c.get('op') in ('!=', '<') and inc and inc.get('op') == '++'
+            if not ok and self._unroll_constant_loop(s, ivid, c, inc):
+                return
             if not ok:
                 raise Unsupported('loop shape at %s' % loc_str(s))
             start = self.intval(init['vars'][0]['init'])
@@ -325,6 +327,45 @@ class Foot:
             return
         else:
             raise Unsupported('statement %s at %s' % (k, loc_str(s)))
+
+    def _unroll_constant_loop(self, s, ivid, c, inc):
+        """a `for` with a constant start, a constant bound and a unit / constant step in either direction: its body is interpreted once per
+        value of the induction variable (at most 64)"""
+        init = s.get('init')
+        if ivid is None or not c or c.get('k') != 'bin' or c.get('op') not in ('<', '<=', '>', '>=', '!=') or not inc:
+            return False
+        l, r = strip(c['lhs']), strip(c['rhs'])
+        while isinstance(l, dict) and l.get('k') in ('cast', 'load'):
+            l = strip(l['e'])
+        if not (isinstance(l, dict) and l.get('k') == 'ref' and l.get('id') == ivid and 'cv' in r):
+            return False
+        start = self.intval(init['vars'][0]['init']) if init['vars'][0].get('init') is not None else None
+        if start is None or isinstance(start, IvTerm) or not start.is_const():
+            return False
+        step = None
+        if inc.get('k') == 'un' and inc.get('op') in ('++', '--') and strip(inc['e']).get('id') == ivid:
+            step = 1 if inc['op'] == '++' else -1
+        elif inc.get('k') == 'assign' and inc.get('op') in ('+=', '-=') and strip(inc['lhs']).get('id') == ivid and 'cv' in strip(inc['rhs']):
+            step = int(strip(inc['rhs'])['cv']) * (1 if inc['op'] == '+=' else -1)
+        if not step:
+            return False
+        if any(isinstance(x, dict) and ((x.get('k') == 'assign' and strip(x['lhs']).get('id') == ivid) or
+                                        (x.get('k') == 'un' and x.get('op') in ('++', '--') and strip(x['e']).get('id') == ivid) or
+                                        x.get('k') in ('break', 'continue')) for x in walk(s['body'])):
+            return False
+        bound = int(r['cv'])
+        test = {'<': lambda v: v < bound, '<=': lambda v: v <= bound, '>': lambda v: v > bound, '>=': lambda v: v >= bound, '!=': lambda v: v != bound}[c['op']]
+        v = start.c
+        n = 0
+        while test(v):
+            n += 1
+            if n > 64:
+                raise Unsupported('loop too long at %s' % loc_str(s))
+            self.env[ivid] = ('int', Aff(v))
+            self.stmt(s['body'])
+            v += step
+        self.env.pop(ivid, None)
+        return True
 
     def expr(self, e):
         if not isinstance(e, dict):
